@@ -41,4 +41,18 @@ TagOf(h, o, slot) ==
 AppendList(h, o, v) ==
   [h EXCEPT ![o].items = Append(h[o].items, ItemT(Len(h[o].items), v, 0))]
 
+\* ---- the copy operations on the abstract heap ----
+DeepCopyHeap(h, root) ==
+  LET ord == Dfs(h, <<root>>, <<>>)
+      n == Len(h)
+      remap(v) == IF IsRef(v) THEN -(n + Pos(ord, -v)) ELSE v
+  IN h \o [i \in 1..Len(ord) |->
+             Obj(h[ord[i]].k, h[ord[i]].fn,
+                 [j \in 1..Len(h[ord[i]].items) |->
+                    ItemT(h[ord[i]].items[j].key, remap(h[ord[i]].items[j].val),
+                          h[ord[i]].items[j].tg)])]
+
+ShallowCopyHeap(h, root, newKind) ==
+  Append(h, Obj(newKind, h[root].fn, h[root].items))
+
 =============================================================================
